@@ -193,6 +193,34 @@ var c12Calls = []c12Call{
 		return fmt.Sprint(string(w.got), n, err)
 	}},
 	{"yielding Stringer", func() string { return string(redact.Sprintf("<%v|%v>", yieldStr{"y1"}, yieldStr{"y2"})) }},
+	// composite operands: maps go through the key sorter, which a change may give scratch memory of its own
+	{"empty and nil maps", func() string {
+		return string(redact.Sprintf("%v|%v|%#v|%v", map[string]int{}, map[int]string(nil), map[string]bool{}, []int{}))
+	}},
+	{"maps with several keys", func() string {
+		return string(redact.Sprintf("%v|%+v|%v", map[string]int{"b": 2, "a": 1, "c": 3}, map[int]string{2: "x", 1: "y"}, map[safeT]bool{"k": true}))
+	}},
+	{"map holding maps", func() string {
+		return guard(func() string {
+			return string(redact.Sprintf("%v", map[string]interface{}{"e": map[string]int{}, "m": map[string]int{"k": 1, "j": 2}, "z": map[int]bool{}}))
+		})
+	}},
+	{"map with yielding Stringer elements", func() string {
+		return string(redact.Sprintf("%v", map[string]yieldStr{"k1": {"v1"}, "k2": {"v2"}}))
+	}},
+	{"slices, arrays, structs, pointers", func() string {
+		x := 5
+		return string(redact.Sprintf("%v|%v|%+v|%v|%v", []string{"a", "b"}, [2]bool{true, false}, embedT{structInner{1, 2}, "z"}, &structT{A: 1}, []interface{}{&x != nil, nil, 2.5}))
+	}},
+}
+
+func c12Idx(name string) int {
+	for i := range c12Calls {
+		if c12Calls[i].Name == name {
+			return i
+		}
+	}
+	panic("no such call: " + name)
 }
 
 // ---------------------------------------------------------------------------
@@ -428,7 +456,15 @@ func (o c12Obs) bad() string {
 	return ""
 }
 
-func doCall(i int) c12Obs {
+func doCall(i int) (o c12Obs) {
+	defer func() {
+		// a panic escaping from a call whose cold-pool reference returned normally is a result that depends on
+		// something else than the arguments (calls that legitimately panic are wrapped in guard())
+		if pv := recover(); pv != nil {
+			r := fmt.Sprintf("PANIC escaping from the call: %v", pv)
+			o = c12Obs{call: i, result: r, keep: r}
+		}
+	}()
 	r := c12Calls[i].Run()
 	return c12Obs{call: i, result: r, keep: clone(r)}
 }
@@ -450,6 +486,13 @@ type c12HistCase struct {
 // runHistory replays a history; returns observation failure (if any), the final pool key and the
 // choice record of the LAST step.
 func runHistory(path []c12Step, last int, lastPrefix []int) (fail string, key string, widths []int, choices []int) {
+	if c12Crumb != nil {
+		full := path
+		if last >= 0 {
+			full = append(append([]c12Step{}, path...), c12Step{Call: last, Choices: lastPrefix})
+		}
+		crumb(describeHistory(full))
+	}
 	vsync.Clear()
 	var obs []c12Obs
 	for _, st := range path {
@@ -590,6 +633,9 @@ type c12SchedCase struct {
 var c12Warm = []int{18, 0} // leaves two recycled printers (one ex-nested) in the pool
 
 func runSchedule(threads [][]int, prefix []int) (fail string, widths []int, choices []int, costs [][]int) {
+	if c12Crumb != nil {
+		crumb(describeSchedule(threads, prefix))
+	}
 	vsync.Clear()
 	c12Ch.quiet = true
 	for _, w := range c12Warm {
@@ -689,7 +735,23 @@ func describeSchedule(threads [][]int, choices []int) string {
 // worker sub-process: ./verifh worker C12 <mode> <shard> <nshards> <tier>
 // ---------------------------------------------------------------------------
 
+// c12Crumb: the execution a worker is about to run, so that a worker killed by a fatal error in library code
+// (stack overflow, concurrent map access) can still be reported with the history / schedule that killed it.
+var c12Crumb *os.File
+
+func crumb(s string) {
+	b := make([]byte, 2048)
+	copy(b, s)
+	for i := len(s); i < len(b); i++ {
+		b[i] = ' '
+	}
+	c12Crumb.WriteAt(b, 0)
+}
+
 func c12Worker(args []string) int {
+	if p := os.Getenv("VERIF_C12_CRUMB"); p != "" {
+		c12Crumb, _ = os.Create(p)
+	}
 	mode := args[0]
 	var shard, nsh int
 	fmt.Sscan(args[1], &shard)
@@ -755,6 +817,7 @@ func c12Worker(args []string) int {
 // scenarios: which calls run on which threads
 func c12Scenarios(tier string) [][][]int {
 	sel := []int{0, 8, 13, 14, 16, 17, 18, 19, 21, 26, 27, 28, 29, 34, 35, 36}
+	sel = append(sel, c12Idx("empty and nil maps"), c12Idx("map with yielding Stringer elements"))
 	var sc [][][]int
 	for i, a := range sel {
 		for _, b := range sel[i:] {
@@ -762,7 +825,7 @@ func c12Scenarios(tier string) [][][]int {
 		}
 	}
 	if tier == "thorough" {
-		small := []int{0, 8, 14, 17, 18, 27, 35, 36}
+		small := []int{0, 8, 14, 17, 18, 27, 35, 36, c12Idx("empty and nil maps"), c12Idx("map with yielding Stringer elements")}
 		for _, a := range small {
 			for _, b := range small {
 				sc = append(sc, [][]int{{a, b}, {b, a}})
@@ -785,7 +848,7 @@ func c12Scenarios(tier string) [][][]int {
 
 func init() {
 	checks["C12"] = checkC12
-	rules["C12"] = "(a) breadth-first search over pool states: every history of <=H calls over a 35-call alphabet x every answer sync.Pool may give at every Get (controlled pool), every call compared with its cold-pool result and all returned strings re-compared at the end; (b) stateless DFS over thread schedules and pool answers of 2-3 threads under a cooperative scheduler with a joint deviation budget (preemptions + non-default pool answers) of 0,1,2; (c) free-running -race pass (auxiliary, not exhaustive); distinct = distinct pool states"
+	rules["C12"] = "(a) breadth-first search over pool states: every history of <=H calls over the call alphabet (every entry point and value class incl. maps and composites) x every answer sync.Pool may give at every Get (controlled pool), every call compared with its cold-pool result and all returned strings re-compared at the end; (b) stateless DFS over thread schedules and pool answers of 2-3 threads under a cooperative scheduler with a joint deviation budget (preemptions + non-default pool answers) of 0,1,2; (c) free-running -race pass (auxiliary, not exhaustive); distinct = distinct pool states"
 	checks["C12RACE"] = checkC12Race
 	replayers["C12/histories"] = func(c *Ctx, raw json.RawMessage) string {
 		var cs c12HistCase
@@ -820,7 +883,9 @@ func runWorkers(c *Ctx, mode string, n int, budgetS int) (agg c12Stats, errs []s
 		go func() {
 			defer wg.Done()
 			cmd := exec.Command(os.Args[0], "worker", "C12", mode, fmt.Sprint(i), fmt.Sprint(n), c.Tier, fmt.Sprint(budgetS))
-			cmd.Env = append(os.Environ(), "GOMAXPROCS=2")
+			crumbPath := fmt.Sprintf("%s/c12-crumb-%s-%d", os.Getenv("VERIF_RUNDIR"), mode, i)
+			cmd.Env = append(os.Environ(), "GOMAXPROCS=2", "VERIF_C12_CRUMB="+crumbPath)
+			defer os.Remove(crumbPath)
 			var errb strings.Builder
 			cmd.Stderr = &errb
 			out, err := cmd.Output()
@@ -832,7 +897,8 @@ func runWorkers(c *Ctx, mode string, n int, budgetS int) (agg c12Stats, errs []s
 				if len(es) > 1500 {
 					es = es[:1500]
 				}
-				errs = append(errs, fmt.Sprintf("worker %s/%d failed: %v %s", mode, i, err, es))
+				cr, _ := os.ReadFile(crumbPath)
+				errs = append(errs, fmt.Sprintf("worker %s/%d died (%v) while executing %s; stderr: %s", mode, i, err, strings.TrimSpace(string(cr)), es))
 				return
 			}
 			agg.Executions += st.Executions
